@@ -89,7 +89,7 @@ def run(ctx):
     h = F.build(ctx)
     drv = C.drv_path() if drv_ok else None
     F.explore(ctx, h, drv, corpus(), "corpus", "c11c")
-    n = 400 if ctx.tier == "quick" else 4000
+    n = 900 if ctx.tier == "quick" else 4000
     F.explore(ctx, h, drv, cases_main(C.Rng(ctx.seed, "c11/main"), n, ctx.tier), "main", "c11")
     if ctx.tier == "thorough":
         F.explore(ctx, h, drv, cases_wordalign_all(C.Rng(ctx.seed, "c11/wa")), "wordalign", "c11w")
